@@ -213,7 +213,7 @@ def process_pyro_request(environ, path, parameters, start_response):
     pyro_options = environ.get("HTTP_X_PYRO_OPTIONS", "").split(",")
     if not path:
         return return_homepage(environ, start_response)
-    matches = re.match(r"(.+)/(.+)", path)
+    matches = re.fullmatch(r"(.+)/(.+)", path, re.DOTALL)     # (the whole path: a name can contain a line break)
     if not matches:
         return not_found(start_response)
     object_name, method = matches.groups()
